@@ -93,20 +93,91 @@ Ltac pm_tac Ep Epc :=
       pose proof (pmeasure_upd g l i _ Ep) as H; unfold pm in H; simpl in H; rewrite ?Epc in H; simpl in H
   end.
 
+Local Arguments Nat.mul : simpl never.
+
+Lemma cur_ext s' s B : smpc s' = smpc s -> sthreads s' = sthreads s -> cur s' B = cur s B.
+Proof. unfold cur, jr. intros -> ->. reflexivity. Qed.
+Lemma started_bound_ext s' s : smpc s' = smpc s -> sstarted s' = sstarted s ->
+  started_bound s' = started_bound s.
+Proof. unfold started_bound. intros -> ->. reflexivity. Qed.
+
 Lemma measure_player s i s' : inv s -> step_player s i = Some s' -> measure s' < measure s.
 Proof.
   intros [G P] H. unfold step_player in H.
   destruct (get_player s i) as [p|] eqn:Ep; [|discriminate].
   pose proof (P i p Ep) as Pi. unfold get_player in Ep.
-  destruct (ppc_ p) eqn:Epc; break_step H; inversion H; subst s'; clear H.
-  all: try (unfold measure, started_bound; simpl; pm_tac Ep Epc;
-            unfold cur, jr in *; simpl in *;
+  destruct (ppc_ p) eqn:Epc; break_step H; inversion H; subst s'; clear H; split_ifs.
+  all: unfold measure.
+  all: try (rewrite (started_bound_ext _ s) by reflexivity; rewrite (cur_ext _ s) by reflexivity;
+            simpl; pm_tac Ep Epc; try rewrite E in *; unfold loop_pc in *;
             repeat match goal with
-                   | H : context[if ?b then _ else _] |- _ => destruct b eqn:?
-                   | H : context[loop_pc ?q] |- _ => unfold loop_pc in H; destruct (prem q) eqn:?
-                   end; simpl in *; rewrite ?E in *; simpl in *; lia).
+                   | H : context[match prem ?q with _ => _ end] |- _ => destruct (prem q) eqn:?
+                   end; simpl in *; lia).
   (* PFinRemove *)
-  unfold measure, started_bound; simpl.
-  pose proof (cur_remove s i (started_bound s)) as Hc. unfold started_bound in Hc.
-  pm_tac Ep Epc. unfold cur in *; simpl in *. unfold jr in *; simpl in *. lia.
+  rewrite (started_bound_ext _ s) by reflexivity.
+  rewrite (cur_ext _ (set_threads s (remove_first i (sthreads s)))) by reflexivity.
+  pose proof (cur_remove s i (started_bound s)) as Hc.
+  simpl. pm_tac Ep Epc. lia.
+Qed.
+
+Lemma next_cmd_players x : splayers (next_cmd x) = splayers x.
+Proof. unfold next_cmd. destruct (fetch _ _). reflexivity. Qed.
+Lemma next_cmd_threads x : sthreads (next_cmd x) = sthreads x.
+Proof. unfold next_cmd. destruct (fetch _ _). reflexivity. Qed.
+
+Lemma measure_fetch x s :
+  sscript x = sscript s -> sstarted x = sstarted s ->
+  players_measure (splayers x) = players_measure (splayers s) -> sthreads x = sthreads s ->
+  cur s (started_bound s) = 1 -> started_bound s = length (sstarted s) ->
+  measure (next_cmd x) < measure s.
+Proof.
+  intros Hsc Hst Hpl Hth Hcur Hb. unfold measure.
+  rewrite next_cmd_players, next_cmd_threads, Hpl, Hth, Hcur, Hb.
+  pose proof (measure_next_cmd x) as H. rewrite Hsc, Hst in H. lia.
+Qed.
+
+Ltac pm_same :=
+  repeat match goal with
+  | |- context[players_measure (upd ?i ?g ?l)] =>
+      rewrite (pmeasure_upd_same g l i) by (intro; reflexivity)
+  end.
+
+Ltac mono_tac :=
+  match goal with
+  | |- context[cost ?sc ?A] =>
+      match goal with
+      | |- context[cost sc ?B] =>
+          tryif constr_eq A B then fail
+          else (assert (cost sc A <= cost sc B) by (apply cost_mono; rewrite ?app_length; simpl; lia))
+      end
+  end.
+
+Lemma measure_main s s' : inv s -> step_main s = Some s' -> measure s' < measure s.
+Proof.
+  intros [G P] H. unfold step_main, acquire_t in H.
+  destruct (smpc s) eqn:HM; break_step H; inversion H; subst s'; clear H; split_goal;
+    try match goal with c : bool |- _ => destruct c end.
+  all: try (apply measure_fetch; simpl; pm_same; try reflexivity;
+            unfold started_bound, cur; rewrite HM; reflexivity).
+  all: try (unfold measure, started_bound, cur, jr; simpl; rewrite ?HM; simpl; pm_same;
+            rewrite ?pmeasure_snoc, ?app_length; unfold pm, new_budget, LOOPW, tail; simpl; lia).
+  all: unfold measure, started_bound, cur, jr; simpl; rewrite ?HM; simpl; pm_same;
+       rewrite ?app_length; unfold new_budget, LOOPW, tail; simpl.
+  - (* MPlayAcq raises *) mono_tac. lia.
+  - (* MPlayAppend, _started empty *) rewrite Heql. simpl. try mono_tac. lia.
+  - (* MPlayAppend -> MPlayPrune *) rewrite Heql. simpl. try mono_tac. lia.
+  - (* MPlayPrune last, alive *) rewrite ?app_length. simpl. mono_tac. lia.
+  - (* MPlayPrune last, dead *) rewrite ?app_length. simpl. mono_tac. lia.
+  - (* MPlayPrune step, alive *) rewrite ?app_length. simpl. mono_tac. lia.
+  - (* MPlayPrune step, dead *) mono_tac. lia.
+  - (* MPlayStart *)
+    destruct (nth_error_some_of_lt (splayers s) p) as [q Hq];
+      [apply (g_refs _ G); rewrite HM; simpl; tauto|].
+    assert (Epc : ppc_ q = PNew) by (apply (p_new _ _ _ (P p q Hq)); rewrite HM; reflexivity).
+    pose proof (pmeasure_upd (fun q0 => p_set_pc q0 (loop_pc q0)) (splayers s) p q Hq) as Hs.
+    unfold pm, loop_pc in Hs. simpl in Hs. rewrite Epc in Hs. destruct (prem q); simpl in Hs; Show; lia.
+  - (* MCloseGet -> MCloseLoopRel *) rewrite E. simpl. rewrite Nat.eqb_refl. simpl. lia.
+  - (* MCloseBreakRel -> MCloseJoinAll *) rewrite Heql. simpl. try mono_tac. lia.
+  - (* MCloseJoin -> MCloseLoopAcq: the joined thread has left _threads *)
+    pose proof (p_threads _ _ _ (P t p E)) as Hth. rewrite E0 in Hth. simpl in Hth. rewrite Hth. lia.
 Qed.
